@@ -41,7 +41,7 @@ fn window_of(s: &Spec) -> usize {
 fn ma_stream(spec: &Spec, decimal: bool) -> BoxedStrategy<Vec<Rat>> {
     let n = window_of(spec);
     let is_default_ema = matches!(spec, Spec::Ema(..));
-    let scale = if decimal { gen::decimal_scale() } else { gen::dyadic_scale() };
+    let scale = if decimal { gen::decimal_scale() } else { gen::dyadic_scale_wide() };
     (scale, 0usize..4, 1i64..500)
         .prop_flat_map(move |(sc, mode, k)| {
             gen::stream(StreamCfg::new(n).scale(sc).len(0, 4 * n + 8)).prop_map(move |xs| {
